@@ -378,6 +378,13 @@ func (w *World) findEntries() error {
 					expand(callee, args[0], depth+1)
 					continue
 				}
+				// a helper of the machine itself called from the frame function (the per-cycle body factored out):
+				// its callees are the per-cycle steps
+				if depth >= 1 && len(args) > 0 && callee.Pkg == fn.Pkg && callee.Signature.Recv() != nil && fn.Signature.Recv() != nil &&
+					types.Identical(callee.Signature.Recv().Type(), fn.Signature.Recv().Type()) && len(callee.Blocks) > 0 {
+					expand(callee, args[0], depth+1)
+					continue
+				}
 				// only the receiver is fixed; other parameters are symbolic
 				fixed := make([]ai.Value, len(args))
 				if len(args) > 0 && callee.Signature.Recv() != nil {
